@@ -6,7 +6,7 @@ from ..core import Script, Rng
 from ..stage import LineStage, replay_line
 from .common import *
 
-ARTEFACTS = ["G1-consts"]
+ARTEFACTS = ["G1-consts", "G4-listings"]
 RULE = ("the hook's scripted Join (per split: 0 = left first, 1 = right first, 2 = right half on a new thread) drives "
         "update_with_join on inputs with > simd_degree chunks: all 3^k schedules for inputs with k <= 4 splits (cyclic script), sampled "
         "beyond; update_rayon in pools of 1..16 threads; the C library's BLAKE3_USE_TBB seam implemented by harness/c with the same "
